@@ -346,7 +346,16 @@ pub fn decode(s: &mut Src) -> Case {
         for _ in 0..k {
             let cs: Vec<char> = tc.input.chars().collect();
             let at = s.below(cs.len() + 1);
-            let ins = *s.pick(&["<script></script>", "<b><script>x</script>", "<p><i><script></script>y", "<table><tr><td><script></script>", "<svg><script></script>", "<a><div><script></script></div>z"]);
+            let ins = *s.pick(&[
+                "<script></script>", "<b><script>x</script>", "<p><i><script></script>y", "<table><tr><td><script></script>", "<svg><script></script>",
+                "<a><div><script></script></div>z",
+                // pointers that are neither on the stack nor in the formatting list while a
+                // template is open (head pointer, form pointer), consulted again after it closes
+                "<template><script></script></template>", "</head><template><script></script></template><link>",
+                "<head></head><template><script></script></template><meta>", "<form><template><script></script></template><input>",
+                "<table><form><template><script></script></template></table><input>", "</head><template><b><script></script></b></template><title>t</title>",
+                "<p><b></p><template><script></script></template>x",
+            ]);
             tc.input = cs[..at].iter().collect::<String>() + ins + &cs[at..].iter().collect::<String>();
         }
         let n = tc.input.chars().count();
